@@ -29,7 +29,7 @@ function GetToken(input :string, model:{ValType :ValType, pos :number}) :number 
 	verifFetched++;
 	if (model.pos >= input.length) {
 		model.pos++;
-		return -1;
+		return @EOFCODE@;
 	}
 	const c = input.charCodeAt(model.pos);
 	const p = model.pos;
